@@ -113,6 +113,14 @@ def _bits_for(n):
 
 
 def band(a, b):
+    # x & m with m = 1..10..0 covering every bit x can have above the cleared low
+    # bits rounds x down to a multiple of 2^k: monotone in x
+    for x, m in ((a, b), (b, a)):
+        if m[0] is not None and m[0] == m[1] and m[0] > 0 and x[0] is not None and x[0] >= 0 and x[1] is not None:
+            k = (m[0] & -m[0]).bit_length() - 1
+            top = m[0].bit_length()
+            if m[0] == ((1 << top) - 1) ^ ((1 << k) - 1) and x[1] < (1 << top):
+                return (x[0] & m[0], x[1] & m[0])
     # non-negative operand bounds the result
     cands = []
     if a[0] is not None and a[0] >= 0 and a[1] is not None:
@@ -548,7 +556,7 @@ class Analysis:
                 continue
             if k[0] in ("iv", "old"):
                 out[k] = hull(v, w)
-            elif k[0] == "ver":
+            elif k[0] in ("ver", "pb"):
                 if v == w:
                     out[k] = v
             elif k[0] == "or":
@@ -932,8 +940,18 @@ class Analysis:
         e = f.exprs[i]
         k = e["k"]
         if k == "asg":
+            pn = self._ptr_local(e["c"][0])
+            if pn is not None:
+                if e["op"] == "=":
+                    st1 = self.kill_local(st, pn)
+                    return self._ptr_assign(st1, pn, e["c"][1], st)
+                if e["op"] in ("+=", "-="):
+                    d = self.eval(st, e["c"][1])
+                    return self._ptr_adjust(st, pn, d if e["op"] == "+=" else neg(d))
             st2 = self._store(st, e["c"][0], self.eval(st, i), e, eid=i)
             return self._or_update(st, st2, e)
+        if k == "un" and e["op"] in ("++", "--") and self._ptr_local(e["c"][0]) is not None:
+            return self._ptr_adjust(st, self._ptr_local(e["c"][0]), (1, 1) if e["op"] == "++" else (-1, -1))
         if k == "un" and e["op"] in ("++", "--"):
             a = self.eval(st, e["c"][0])
             nv = wrap(add(a, (1, 1) if e["op"] == "++" else (-1, -1)), e.get("it"), arith=True)
@@ -959,7 +977,7 @@ class Analysis:
                         st = dict(st)
                         st[key] = iv
                 elif "init" in v:
-                    self.ctx.note_ptr_init(self, st, v)
+                    st = self._ptr_assign(st, v["name"], v["init"])
             return st
         if k == "call":
             toks = self.sums.call_writes(f, e)
@@ -988,6 +1006,95 @@ class Analysis:
                 r = ex.root(f, tgt)
                 if r is not None:
                     st = self.kill_local(st, f.exprs[r]["name"])
+        return st
+
+    # ---- pointer cursors into sized arrays ------------------------------------------
+    # A local pointer assigned `array + e` / `&array[e]` (array of known element
+    # count) is tracked as (array, offset interval); p++, p += c move the offset.
+    # ivl.cursor_derefs() checks every dereference against the array.
+    def _ptr_local(self, lhs):
+        f = self.f
+        l = ex.skip(f, lhs)
+        le = f.exprs[l]
+        if le["k"] == "ref" and le.get("dk") in ("local", "param") and "it" not in le \
+                and le.get("t", "").rstrip().endswith("*") and le["name"] not in self.taken:
+            return le["name"]
+        return None
+
+    def _ptr_keys(self, name):
+        ok, pk = ("iv", "@" + name), ("pb", name)
+        for k in (ok, pk):
+            if k not in self.keyinfo:
+                mm = _MentionsTR()
+                mm.refs.add(name)
+                self.keyinfo[k] = mm
+        return ok, pk
+
+    def _ptr_assign(self, st, name, rhs, st_eval=None):
+        from . import ivl
+        f = self.f
+        st_eval = st if st_eval is None else st_eval
+        if name in self.taken:
+            return st
+        ok, pk = self._ptr_keys(name)
+        r = ex.skip(f, rhs)
+        re_ = f.exprs[r]
+        base, terms, extra = None, [], (0, 0)
+        # p = q (+ e): another tracked cursor
+        q = r
+        qe = re_
+        while qe["k"] == "cast" and qe["ck"] in ("NoOp", "LValueToRValue", "BitCast"):
+            q = ex.skip(f, qe["c"][0])
+            qe = f.exprs[q]
+        if qe["k"] == "ref" and ("pb", qe.get("name")) in st_eval:
+            st = dict(st)
+            st[pk] = st_eval[("pb", qe["name"])]
+            st[ok] = st_eval.get(("iv", "@" + qe["name"]), (None, None))
+            return st
+        if re_["k"] == "un" and re_["op"] == "&":
+            # &a[e]  ==  a + e
+            t = ex.skip(f, re_["c"][0])
+            te = f.exprs[t]
+            if te["k"] == "idx":
+                ab = ivl.array_bound(f, t)
+                if ab is not None:
+                    off = ivl.eval_nowrap(self, st_eval, te["c"][1])
+                    st = dict(st)
+                    st[pk] = (ab[0], self._arr_name(ab[1]))
+                    st[ok] = off
+                    return st
+            return st
+        base, terms = ivl._ptr_terms(f, r)
+        if base is None:
+            return st
+        be = f.exprs[base]
+        if "arr" not in be:
+            return st
+        n = be["arr"][0]
+        if len(be["arr"]) > 1:
+            return st           # pointer to row: element type differs
+        off = (0, 0)
+        for sign, tnode in terms:
+            v = ivl.eval_nowrap(self, st_eval, tnode)
+            off = add(off, v) if sign > 0 else sub(off, v)
+        st = dict(st)
+        st[pk] = (n, self._arr_name(base))
+        st[ok] = off
+        return st
+
+    def _arr_name(self, b):
+        f = self.f
+        e = f.exprs[ex.skip(f, b)]
+        while e["k"] in ("cast", "idx"):
+            e = f.exprs[ex.skip(f, e["c"][0])]
+        return e.get("member") or e.get("name") or "?"
+
+    def _ptr_adjust(self, st, name, d):
+        ok, pk = self._ptr_keys(name)
+        if pk not in st:
+            return st
+        st = dict(st)
+        st[ok] = add(st.get(ok, (None, None)), d)
         return st
 
     def _or_update(self, st0, st, e):
